@@ -139,6 +139,7 @@ type Cluster struct {
 	heldStartups     []*held
 	forceID          map[string]string // PREPARE token -> key of a forced prepared id
 	WarnOnUnprepared bool              // UNPREPARED answers carry a warning (v4+)
+	PreparedColumns  int               // > 0: PREPARED results describe that many result columns
 }
 
 type Host struct {
@@ -1115,6 +1116,17 @@ func (c *Conn) handle(f *wire.Frame) bool {
 			c.h.prepared[hex.EncodeToString(id)] = prepared{Text: m.Query, Keyspace: ks}
 			c.h.mu.Unlock()
 			r := &message.PreparedResult{PreparedQueryId: id, VariablesMetadata: &message.VariablesMetadata{}, ResultMetadata: &message.RowsMetadata{}}
+			cl.mu.Lock()
+			ncols := cl.PreparedColumns
+			cl.mu.Unlock()
+			if ncols > 0 {
+				// a wide table: the PREPARED result describes many columns (and takes a while to decode)
+				cols := make([]*message.ColumnMetadata, ncols)
+				for i := range cols {
+					cols[i] = &message.ColumnMetadata{Keyspace: "ks1", Table: "wide", Name: fmt.Sprintf("col_%04d", i), Index: int32(i), Type: datatype.Varchar}
+				}
+				r.ResultMetadata = &message.RowsMetadata{ColumnCount: int32(ncols), Columns: cols}
+			}
 			if v.SupportsResultMetadataId() {
 				r.ResultMetadataId = []byte{0xAB, 0xCD}
 			}
